@@ -846,6 +846,294 @@ example : interfaceClassesOf Frappy.Generated.C06.secopBaseClasses
     featuresOf [⟨"GenB", false⟩, ⟨"FeatSub", false⟩, ⟨"FeatA", true⟩, ⟨"Drivable", false⟩] = ["FeatA"] := by
   decide +kernel
 
+/-! ### commands: the described kind and the described command datainfo are honoured -/
+
+/-- **described_command_is_dispatched.**  What the report says about the command `(m, a)` — its datainfo and whether that
+datainfo has an `argument` — is read off the very `Command` the dispatcher resolves for `m:a`. -/
+theorem described_command_is_dispatched (pre : Predef) (n : Node J V) (hwf : Node.WF pre n) (m a : String) (ad : AccDesc J)
+    (h : findDesc (describe pre n) m a = some ad) (hk : ad.kind = .command) :
+    ∃ mod c, lookupCommand pre n m a = .ok (mod, c) ∧ findParam pre mod a = none ∧ findModule n m = some mod ∧
+      mod.exported = true ∧ ad.datainfo = c.datainfo ∧ ad.argument = some c.arg.isSome := by
+  obtain ⟨mod, acc, hf, he, hw, hwn, hd⟩ := described_resolves pre n hwf.names m a ad h
+  cases acc with
+  | param p => rw [describeAcc_param pre mod p a hwn] at hd; injection hd with hd; subst hd; cases hk
+  | command c =>
+    rw [describeAcc_command pre mod c a hwn] at hd; injection hd with hd; subst hd
+    refine ⟨mod, c, ?_, ?_, hf, he, rfl, rfl⟩
+    · unfold lookupCommand; rw [hf]; simp only; unfold findCommand; rw [hw]
+    · unfold findParam; rw [hw]
+
+/-- **kind_honoured.**  The described kind is honoured: a described command can neither be changed, read nor subscribed
+(`NoSuchParameter`, no call, node unchanged, refused before subscribing), a described parameter can not be executed. -/
+theorem kind_honoured (pre : Predef) (env : Env V) (n : Node J V) (hwf : Node.WF pre n) (m a : String) (ad : AccDesc J)
+    (h : findDesc (describe pre n) m a = some ad) (data : Option J) :
+    (ad.kind = .command →
+      (∀ j, handleChange pre env n (.full m a) j = ⟨.error .noSuchParameter, [], [], n⟩) ∧
+      handleRead pre env n (.full m a) false = ⟨.error .noSuchParameter, [], [], n⟩ ∧
+      activateRefusal pre n (.full m a) = some .noSuchParameter) ∧
+    (ad.kind = .parameter → handleDo pre env n (.full m a) data = ⟨.error .noSuchCommand, [], [], n⟩) := by
+  constructor
+  · intro hk
+    obtain ⟨mod, c, _, hp, hf, he, _, _⟩ := described_command_is_dispatched pre n hwf m a ad h hk
+    refine ⟨?_, ?_, ?_⟩
+    · intro j; simp [handleChange, target, lookupParam, hf, hp, refuse, mkErr]
+    · simp [handleRead, target, lookupParam, hf, hp, refuse, mkErr]
+    · simp [activateRefusal, hf, he, hp]
+  · intro hk
+    obtain ⟨mod, acc, hf, he, hw, hwn, hd⟩ := described_resolves pre n hwf.names m a ad h
+    cases acc with
+    | command c => rw [describeAcc_command pre mod c a hwn] at hd; injection hd with hd; subst hd; cases hk
+    | param p => simp [handleDo, targetDo, lookupCommand, hf, findCommand, hw, refuse, mkErr]
+
+/-- the payloads the NODE accepts for a `do` of the command `c`: none for a command without argument, exactly those its
+argument datatype accepts otherwise -/
+def NodeAccepts (c : Command J V) (data : Option J) : Prop :=
+  match c.arg, data with
+  | none, none => True
+  | none, some _ => False
+  | some _, none => False
+  | some ops, some j => ∃ v, ops.accept j = .ok v
+
+/-- a `do` aimed at a described command is decided by `Command.do`'s test of the payload alone: a payload the node accepts
+reaches the command function (exactly one call), any other is refused without a call and leaves the node unchanged -/
+theorem do_described_command (pre : Predef) (env : Env V) (n : Node J V) (mod : Module J V) (c : Command J V) (m a : String)
+    (hl : lookupCommand pre n m a = .ok (mod, c)) (data : Option J) :
+    (NodeAccepts c data → ∃ arg, handleDo pre env n (.full m a) data = finishDo env n mod c arg ∧
+        (handleDo pre env n (.full m a) data).calls = [DriverCall.cmd mod.name c.attr arg]) ∧
+    (¬ NodeAccepts c data → ∃ cls, handleDo pre env n (.full m a) data = ⟨.error cls, [], [], n⟩) := by
+  have hdo : handleDo pre env n (.full m a) data =
+      match admitDo c data with
+      | .error e => refuse n e
+      | .ok arg => finishDo env n mod c arg := by
+    unfold handleDo; simp only [targetDo]; rw [hl]; rfl
+  unfold NodeAccepts
+  cases harg : c.arg with
+  | none =>
+    cases data with
+    | none =>
+      have : admitDo c none = .ok none := by unfold admitDo; rw [harg]
+      rw [hdo, this]
+      exact ⟨fun _ => ⟨none, rfl, (finishDo_calls env n mod c none).1⟩, fun h => absurd trivial h⟩
+    | some j =>
+      have : admitDo c (some j) = .error (mkErr .wrongType) := by unfold admitDo; rw [harg]
+      rw [hdo, this]
+      exact ⟨fun h => h.elim, fun _ => ⟨_, rfl⟩⟩
+  | some ops =>
+    cases data with
+    | none =>
+      have : admitDo c none = .error (mkErr .wrongType) := by unfold admitDo; rw [harg]
+      rw [hdo, this]
+      exact ⟨fun h => h.elim, fun _ => ⟨_, rfl⟩⟩
+    | some j =>
+      cases hacc : ops.accept j with
+      | error e =>
+        have : admitDo c (some j) = .error e := by unfold admitDo; rw [harg]; simp only; rw [hacc]
+        rw [hdo, this]
+        exact ⟨fun ⟨v, hv⟩ => (by rw [hacc] at hv; cases hv), fun _ => ⟨_, rfl⟩⟩
+      | ok v =>
+        have : admitDo c (some j) = .ok (some v) := by unfold admitDo; rw [harg]; simp only; rw [hacc]
+        rw [hdo, this]
+        exact ⟨fun _ => ⟨some v, rfl, (finishDo_calls env n mod c (some v)).1⟩, fun h => absurd (by first | exact ⟨v, hacc⟩ | exact ⟨v, rfl⟩) h⟩
+
+/-- **command_datainfo_equiv** (the clause "each described datainfo accepts and rejects the same payloads as the node itself
+does", for commands; relative to the datatype oracle).  Assume the C03 law for the argument datatypes of this node: the argument
+datatype a client rebuilds from the datainfo of one of its commands accepts exactly the payloads the command's own argument datatype accepts.  Then the
+payloads the DESCRIBED datainfo of `(m, a)` accepts — none if it has no `argument`, those its argument datatype accepts
+otherwise — are exactly the payloads for which the node executes the command; every other payload is refused, the command
+function is not called and the node is unchanged. -/
+theorem command_datainfo_equiv (pre : Predef) (env : Env V) (n : Node J V) (hwf : Node.WF pre n)
+    (clientAccepts : J → J → Bool)
+    (law : ∀ mod ∈ n, ∀ (c : Command J V), Acc.command c ∈ mod.accs → ∀ ops, c.arg = some ops →
+      ∀ j, clientAccepts c.datainfo j = true ↔ ∃ v, ops.accept j = .ok v)
+    (m a : String) (ad : AccDesc J) (h : findDesc (describe pre n) m a = some ad) (hk : ad.kind = .command)
+    (data : Option J) :
+    (describedAccepts clientAccepts ad data = true →
+      (handleDo pre env n (.full m a) data).calls ≠ [] ∧ (handleDo pre env n (.full m a) data).node = n) ∧
+    (describedAccepts clientAccepts ad data = false →
+      ∃ cls, handleDo pre env n (.full m a) data = ⟨.error cls, [], [], n⟩) := by
+  obtain ⟨mod, c, hl, _, _, _, hdi, harg⟩ := described_command_is_dispatched pre n hwf m a ad h hk
+  have hiff : describedAccepts clientAccepts ad data = true ↔ NodeAccepts c data := by
+    unfold describedAccepts
+    rw [harg, hdi]
+    unfold payloadAcceptable NodeAccepts
+    cases hca : c.arg with
+    | none => cases data <;> simp
+    | some ops =>
+      cases data with
+      | none => simp
+      | some j =>
+        have hex := exported_of_lookupCommand pre n m a mod c hl
+        simpa using law mod hex.1 c hex.2.2.2.1 ops hca j
+  obtain ⟨hyes, hno⟩ := do_described_command pre env n mod c m a hl data
+  constructor
+  · intro hok
+    obtain ⟨arg, heq, hcalls⟩ := hyes (hiff.1 hok)
+    exact ⟨by rw [hcalls]; simp, by rw [heq]; exact (finishDo_calls env n mod c arg).2.1⟩
+  · intro hok
+    exact hno (fun hacc => by rw [hiff.2 hacc] at hok; cases hok)
+
+/-- **model_do_probe_ok** (the monitor clause for `do` is sound on the model).  Under the same oracle law, the exchange the
+model produces for ANY `do m:a` — described command, described parameter or undescribed name — satisfies `ProbeOK` against the
+model's own report, when `client` is the client-side verdict on the payload. -/
+theorem model_do_probe_ok [DecidableEq J] (pre : Predef) (env : Env V) (n : Node J V) (hwf : Node.WF pre n)
+    (clientAccepts : J → J → Bool)
+    (law : ∀ mod ∈ n, ∀ (c : Command J V), Acc.command c ∈ mod.accs → ∀ ops, c.arg = some ops →
+      ∀ j, clientAccepts c.datainfo j = true ↔ ∃ v, ops.accept j = .ok v)
+    (m a : String) (data : Option J) (client : Bool)
+    (hclient : ∀ ad j, findDesc (describe pre n) m a = some ad → data = some j → client = clientAccepts ad.datainfo j) :
+    ProbeOK (describe pre n)
+      ⟨.do_, m, a, (handleDo pre env n (.full m a) data).reply, (handleDo pre env n (.full m a) data).calls, false, false,
+       data.isSome, client⟩ := by
+  unfold ProbeOK
+  simp only
+  cases hd : findDesc (describe pre n) m a with
+  | none =>
+    simp only
+    have hdo : ∃ cls, handleDo pre env n (.full m a) data = ⟨.error cls, [], [], n⟩ ∧
+        (cls = .noSuchModule ∨ cls = .noSuchCommand) := by
+      cases hf : findModule n m with
+      | none => exact ⟨.noSuchModule, by simp [handleDo, targetDo, lookupCommand, hf, refuse, mkErr], Or.inl rfl⟩
+      | some mod =>
+        have hw := findWire_none_of_undescribed pre n hwf m a hd mod hf
+        exact ⟨.noSuchCommand, by simp [handleDo, targetDo, lookupCommand, hf, findCommand, hw, refuse, mkErr], Or.inr rfl⟩
+    obtain ⟨cls, hdo, hcls⟩ := hdo
+    rw [hdo]
+    rcases hcls with rfl | rfl <;> simp [isNoSuch]
+  | some ad =>
+    simp only
+    constructor
+    · intro hk
+      rw [(kind_honoured pre env n hwf m a ad hd data).2 hk]
+      simp [isNoSuch]
+    · intro hk
+      have hpa : payloadAcceptable ad.argument data.isSome client = describedAccepts clientAccepts ad data := by
+        unfold describedAccepts
+        cases data with
+        | none =>
+          unfold payloadAcceptable
+          cases ad.argument with
+          | none => rfl
+          | some b => cases b <;> simp
+        | some j => rw [hclient ad j hd rfl]
+      rw [hpa]
+      obtain ⟨hyes, hno⟩ := command_datainfo_equiv pre env n hwf clientAccepts law m a ad hd hk data
+      constructor
+      · intro hf
+        obtain ⟨cls, hdo⟩ := hno hf
+        rw [hdo]; simp [Reply.isError]
+      · intro ht
+        exact (hyes ht).1
+
+/-! non-vacuity for the command theorems: the example node plus a command `go` taking a number up to 5 -/
+namespace Example2
+open Frappy.Props.C04.Example
+
+def go : Command Nat Nat :=
+  { attr := "go", exp := .auto, arg := some ⟨fun j => if j ≤ 5 then .ok j else .error ⟨.rangeError, "too big"⟩⟩, res := none,
+    datainfo := 5, props := [] }
+def m2 : Module Nat Nat :=
+  { name := "m", exported := true, accs := [.param target, .param ro, .command stop, .command go], props := [] }
+def node2 : Node Nat Nat := [m2]
+
+/-- the client rebuilds "numbers up to `datainfo`" from the datainfo -/
+def clientAccepts (datainfo j : Nat) : Bool := decide (j ≤ datainfo)
+
+theorem wf2 : Node.WF pre node2 := by
+  refine ⟨by unfold namesNodup; decide +kernel, ?_, ?_, ?_, ?_⟩
+  · intro x hx; simp only [node2, List.mem_singleton] at hx; subst hx; unfold Module.attrsNodup; decide +kernel
+  · intro x hx; simp only [node2, List.mem_singleton] at hx; subst hx; unfold Module.wiresNodup; decide +kernel
+  · intro x hx; simp only [node2, List.mem_singleton] at hx; subst hx
+    intro a ha k hk
+    simp only [m2, List.mem_cons, List.not_mem_nil, or_false] at ha
+    rcases ha with rfl | rfl | rfl | rfl <;> revert hk <;> revert k <;> decide +kernel
+  · intro x hx; simp only [node2, List.mem_singleton] at hx; subst hx
+    intro a ha p hp hc
+    simp only [m2, List.mem_cons, List.not_mem_nil, or_false] at ha
+    rcases ha with rfl | rfl | rfl | rfl
+    · injection hp with hp; subst hp; simp [Frappy.Props.C04.Example.target] at hc
+    · injection hp with hp; subst hp; rfl
+    · cases hp
+    · cases hp
+
+/-- the oracle law holds for the commands of this node -/
+theorem law2 : ∀ mod ∈ node2, ∀ (c : Command Nat Nat), Acc.command c ∈ mod.accs → ∀ ops, c.arg = some ops →
+    ∀ j, clientAccepts c.datainfo j = true ↔ ∃ v, ops.accept j = .ok v := by
+  intro mod hmod c hc ops harg j
+  simp only [node2, List.mem_singleton] at hmod; subst hmod
+  simp only [m2, List.mem_cons, List.not_mem_nil, or_false] at hc
+  rcases hc with hc | hc | hc | hc
+  · cases hc
+  · cases hc
+  · injection hc with hc; subst hc; simp [stop] at harg
+  · injection hc with hc; subst hc
+    simp only [go, Option.some.injEq] at harg; subst harg
+    show decide (j ≤ 5) = true ↔ ∃ v, (if j ≤ 5 then Except.ok j else Except.error ⟨.rangeError, "too big"⟩ : Except Node.Err Nat) = .ok v
+    by_cases h : j ≤ 5 <;> simp [h]
+
+end Example2
+
+open Frappy.Props.C04.Example Example2 in
+/-- `stop` is described as a command without argument, `go` as one with an argument -/
+example : (findDesc (describe pre node2) "m" "stop").map (fun ad => (ad.kind, ad.argument)) = some (.command, some false) ∧
+    (findDesc (describe pre node2) "m" "_go").map (fun ad => (ad.kind, ad.argument)) = some (.command, some true) := by
+  decide +kernel
+
+open Frappy.Props.C04.Example Example2 in
+/-- the 'empty' payload 0 for the argument-less `stop` is refused without a call; without payload `stop` is executed;
+`go 3` is executed with 3, `go 9` and `go` without payload are refused -/
+example :
+    (handleDo pre env node2 (.full "m" "stop") (some 0)).reply = .error .wrongType ∧
+    (handleDo pre env node2 (.full "m" "stop") (some 0)).calls = [] ∧
+    (handleDo pre env node2 (.full "m" "stop") none).calls = [DriverCall.cmd "m" "stop" none] ∧
+    (handleDo pre env node2 (.full "m" "_go") (some 3)).calls = [DriverCall.cmd "m" "go" (some 3)] ∧
+    (handleDo pre env node2 (.full "m" "_go") (some 9)).reply = .error .rangeError ∧
+    (handleDo pre env node2 (.full "m" "_go") none).reply = .error .wrongType := by
+  decide +kernel
+
+open Frappy.Props.C04.Example Example2 in
+/-- `command_datainfo_equiv` and `model_do_probe_ok` apply to this node (hypotheses satisfiable), e.g. for `go 3`
+(accepted by the described datainfo, hence executed) and `stop 0` (excluded, hence refused) -/
+example : (handleDo pre env node2 (.full "m" "_go") (some 3)).calls ≠ [] ∧
+    (∃ cls, handleDo pre env node2 (.full "m" "stop") (some 0) = ⟨.error cls, [], [], node2⟩) ∧
+    ProbeOK (describe pre node2) ⟨.do_, "m", "stop", (handleDo pre env node2 (.full "m" "stop") (some 0)).reply,
+      (handleDo pre env node2 (.full "m" "stop") (some 0)).calls, false, false, true, true⟩ := by
+  refine ⟨?_, ?_, ?_⟩
+  · cases h : findDesc (describe pre node2) "m" "_go" with
+    | none => exact absurd h (by decide +kernel)
+    | some ad =>
+      have hk : ad.kind = .command := by
+        have : (findDesc (describe pre node2) "m" "_go").map (·.kind) = some .command := by decide +kernel
+        rw [h] at this; simpa using this
+      have hacc : describedAccepts clientAccepts ad (some 3) = true := by
+        have : (findDesc (describe pre node2) "m" "_go").map (fun ad => describedAccepts clientAccepts ad (some 3)) = some true := by
+          decide +kernel
+        rw [h] at this; simpa using this
+      exact ((command_datainfo_equiv pre env node2 wf2 clientAccepts law2 "m" "_go" ad h hk (some 3)).1 hacc).1
+  · cases h : findDesc (describe pre node2) "m" "stop" with
+    | none => exact absurd h (by decide +kernel)
+    | some ad =>
+      have hk : ad.kind = .command := by
+        have : (findDesc (describe pre node2) "m" "stop").map (·.kind) = some .command := by decide +kernel
+        rw [h] at this; simpa using this
+      have hacc : describedAccepts clientAccepts ad (some 0) = false := by
+        have : (findDesc (describe pre node2) "m" "stop").map (fun ad => describedAccepts clientAccepts ad (some 0)) = some false := by
+          decide +kernel
+        rw [h] at this; simpa using this
+      exact (command_datainfo_equiv pre env node2 wf2 clientAccepts law2 "m" "stop" ad h hk (some 0)).2 hacc
+  · exact model_do_probe_ok pre env node2 wf2 clientAccepts law2 "m" "stop" (some 0) true (by
+      intro ad j had hj
+      injection hj with hj; subst hj
+      have : (findDesc (describe pre node2) "m" "stop").map (fun ad => clientAccepts ad.datainfo 0) = some true := by decide +kernel
+      rw [had] at this
+      simp only [Option.map_some, Option.some.injEq] at this
+      exact this.symm)
+
+open Frappy.Props.C04.Example Example2 in
+/-- `kind_honoured` on this node: the command `stop` can not be changed or read, the parameter `target` not executed -/
+example : (handleChange pre env node2 (.full "m" "stop") 1).reply = .error .noSuchParameter ∧
+    (handleDo pre env node2 (.full "m" "target") none).reply = .error .noSuchCommand := by
+  decide +kernel
+
 /-! ### module properties: configuration first, automatic properties afterwards -/
 
 section ModuleProps
